@@ -14,7 +14,7 @@ recomputes), so that no unsatisfiable "H is injective" hypothesis is needed:
   C10_sound        (def) accepted proof for the trusted root ⇒ it returns the true owner's value, or a collision is
                    exhibited among the listed inputs
   C10_sound_partial  soundness under `Faithful` (node kinds and claimed child weights on the path are the true ones —
-                   exactly what the two finding matchers exclude); `honest_is_faithful`: the hypothesis is satisfiable
+                   a sufficient condition that rules out both findings — much stronger than their complement); `honest_is_faithful`: the hypothesis is satisfiable
   C10_sound_false_weights / C10_sound_false_kind
                    the full statement is FALSE: two concrete forged proofs (toy hash, no collision among the inputs)
                    — the open findings C10-forged-child-weights and C10-node-kind-confusion
@@ -76,7 +76,7 @@ def C10_sound : Prop :=
     verifyPairs H ps b = .ok (t.hash H, v) →
       (∃ k, ownerSpec t.entries b = some (k, v)) ∨ CollisionIn H (t.pathInputs H b ++ verifyInputs H ps b)
 
-/-- Soundness under the hypothesis that excludes exactly the two open findings: if the proof's nodes on the path have
+/-- Soundness under a hypothesis that excludes the two open findings (sufficient, not their exact complement): if the proof's nodes on the path have
     the kinds of the trie's nodes and claim the true child weights (`Faithful`), then an accepted proof for the trusted
     root returns the value of the block's true owner — or two different inputs among the explicitly listed ones (what
     the trie hashes on the owner path, what the verifier re-hashes) have the same hash. -/
